@@ -125,7 +125,7 @@ def main():
         ia = len(sc)
         sc += ["get a %d %d 0 %d" % (ta, offa, na), "close", "open %s rw" % d, "get a %d %d 0 %d" % (ta, offa, na), "close"]
         cases.append({"kind": kind, "dir": d, "t": t, "enc": enc, "sex": sex, "off": off, "spf": spf, "comps": comps, "script": sc,
-                      "iop": ia - len(ops), "iafter": ia, "want": wa, "model": model_line, "note": note, "n": n, "ta": ta})
+                      "iop": ia - 1, "ibef": ia - len(ops) - 1, "iafter": ia, "want": wa, "model": model_line, "note": note, "n": n, "ta": ta})
 
     types_q = [1, 3, 4, 7, 8, 9, 10, 11] if not chk.thorough else list(range(12))
     # A: gd_alter_encoding with recoding, all ordered pairs
@@ -176,7 +176,11 @@ def main():
                         want = [0] * ((o1 - o2) * spf * nc) + comps
                     else:
                         want = comps[(o2 - o1) * spf * nc:]
-                    new_case("alter_frameoffset", t, enc, sex, o1, spf, comps, ["alter_frameoffset %d 0 1" % o2],
+                    # half of the cases first pin the Standards Version of the open dirfile (gd_dirfile_standards with an
+                    # explicit version the dirfile conforms to, EARLIEST, LATEST or CURRENT): the metadata written after the
+                    # operation must still carry everything the dirfile now needs
+                    pre = ["standards %d" % rng.choice([-3, -3, -2, -1, 0, 5, 6, 8, 9, 10])] if rng.random() < 0.5 else []
+                    new_case("alter_frameoffset", t, enc, sex, o1, spf, comps, pre + ["alter_frameoffset %d 0 1" % o2],
                              {"t": t, "off": o2, "comps": want}, None, "%s %d->%d" % (enc, o1, o2))
     # D: gd_alter_raw: type change between unsigned integer types, and sample-rate change, with recoding
     ut = [1, 3, 5, 7]
@@ -248,10 +252,10 @@ def main():
         if rc != 0 or len(r) != len(c["script"]):
             spec_bad.setdefault(("crash/" + key).replace("crash/../", ""), []).append((c, "gdrun died rc=%d after %d of %d lines: %s" % (rc, len(r), len(c["script"]), out[-200:])))
             continue
-        before = gdlib.parse_get(r[c["iop"] - 1])
-        if c["script"][c["iop"] - 1].startswith("get") and (before is None or before[2] != c["comps"]):
+        before = gdlib.parse_get(r[c["ibef"]])
+        if c["script"][c["ibef"]].startswith("get") and (before is None or before[2] != c["comps"]):
             # not this property's business (the write/read path): but nothing can be concluded
-            spec_bad.setdefault("setup/" + key, []).append((c, "field does not read back before the operation: %s" % r[c["iop"] - 1][:200]))
+            spec_bad.setdefault("setup/" + key, []).append((c, "field does not read back before the operation: %s" % r[c["ibef"]][:200]))
             continue
         opres = r[c["iop"]]
         a1 = gdlib.parse_get(r[c["iafter"]])
@@ -314,6 +318,9 @@ def main():
         encs = [rng.choice(ENCS) for _ in range(3)]
         sexs = [rng.choice(["l", "b"]) for _ in range(3)]
         offs = [rng.choice([0, 1, 3]) for _ in range(3)]
+        if rng.random() < 0.3:
+            # the fragments differ in byte order only (same encoding, same frame offset)
+            encs = [encs[0]] * 3; offs = [offs[0]] * 3; sexs = rng.choice([["l", "b", "l"], ["b", "l", "b"], ["l", "l", "b"]])
         nfr = rng.choice([3, 6, 20])
         n = nfr * spf
         if ISFLOAT[t]:
@@ -365,6 +372,8 @@ def main():
         sc = ["open %s rw" % d, "put a %d %d 0 %d %s" % (t, F0, n, gdlib.hexs(acomps)), "put b 1 %d 0 %d %s" % (F0, nfr, gdlib.hexs(bvals)),
               "put c 1 %d 0 5 %s" % (F0, gdlib.hexs(cvals)), "put e 4 %d 0 7 %s" % (F0, gdlib.hexs(evals)), "close", "open %s rw" % d]
         ib = len(sc); sc += reads(orig)
+        if rng.random() < 0.3:
+            sc.append("standards %d" % rng.choice([-3, -3, -2, -1, 6, 8, 9, 10]))     # result ignored: a version the dirfile does not conform to is refused
         io = len(sc); sc += ops
         ia_ = len(sc); sc += reads(names)
         sc += ["close", "open %s rw" % d]
@@ -410,6 +419,51 @@ def main():
                 ({"kind": "scenario", "dir": c["dir"], "t": c["t"], "sex": "", "off": 0, "spf": 0, "n": c["n"], "script": c["script"], "enc": ""}, c["desc"] + ": " + why))
         else:
             nontriv.add(("scenario", opsdesc, c["desc"]))
+    # ------------------------------------------------------------------ F: gd_move with data between two fragments that differ in
+    # byte order only (or in nothing, or in the frame offset too), every encoding x single- and multi-byte types, data with
+    # many runs (SIE: many records, whose 64-bit indices are stored in the fragment's byte order whatever the sample size)
+    mcases = []
+    for enc in ENCS:
+        for t in [0, 1] + rng.sample([3, 4, 7, 8, 9, 10, 11], 2):
+            for rep in range(2):
+                sx = gdlib.sexes_for(t)
+                s1 = rng.choice(sx); s2 = rng.choice([x for x in sx if x != s1]) if rep == 0 else rng.choice(sx)
+                o1 = rng.choice([0, 2]); o2 = o1 if rep == 0 or rng.random() < 0.5 else 1
+                spf = rng.choice([1, 2]); n = spf * rng.choice([6, 15, 40])
+                comps = values(rng, t, n, enc == "text")
+                d = os.path.join(root, "m%d" % len(mcases)); os.mkdir(d)
+                open(os.path.join(d, "format"), "w").write("/ENCODING %s\n%s\n/FRAMEOFFSET %d\na RAW %s %d\n/INCLUDE sub.format\n" % (
+                    enc, gdlib.sex_directive(s1), o1, NAMES[t], spf))
+                open(os.path.join(d, "sub.format"), "w").write("/ENCODING %s\n%s\n/FRAMEOFFSET %d\nz RAW UINT8 1\n" % (enc, gdlib.sex_directive(s2), o2))
+                F1 = 3
+                g_ = "get a %d %d 0 %d" % (t, F1, n + 2)
+                sc = ["open %s rw" % d, "put a %d %d 0 %d %s" % (t, F1, n, gdlib.hexs(comps)), "close", "open %s rw" % d, g_,
+                      "move a 1 %d" % GD_REN_DATA, g_, "close", "open %s rw" % d, g_, "close"]
+                mcases.append({"kind": "move", "dir": d, "t": t, "sex": s1, "off": o1, "spf": spf, "n": n, "enc": enc, "script": sc, "comps": comps,
+                               "note": "%s %s->%s offset %d->%d" % (enc, s1, s2, o1, o2)})
+    with ThreadPoolExecutor(max_workers=vlib.NPROC) as ex_:
+        mouts = list(ex_.map(lambda c: vlib.sh([exe], inp=("\n".join(c["script"]) + "\n").encode(), timeout=300), mcases))
+    for c, (rc, out) in zip(mcases, mouts):
+        chk.cov["evaluations"] += 1
+        dist["move"] = dist.get("move", 0) + 1
+        r = out.rstrip("\n").split("\n")
+        why = None
+        if rc != 0 or len(r) != len(c["script"]):
+            why = "gdrun died rc=%d: %s" % (rc, out[-200:])
+        else:
+            g0, g1, g2 = gdlib.parse_get(r[4]), gdlib.parse_get(r[6]), gdlib.parse_get(r[9])
+            if g0 is None or g0[2] != c["comps"]:
+                why = "setup: the field does not read back before the move: %s" % r[4][:120]
+            elif r[5] != "move 0 0":
+                why = "move a 1 GD_REN_DATA -> %s" % r[5]
+            elif g1 is None or g1[1] != 0 or g1[2] != c["comps"]:
+                why = "after gd_move(a, 1, GD_REN_DATA) the field reads %s through the same handle, before it read %s" % (r[6][:140], gdlib.hexs(c["comps"])[:140])
+            elif g2 is None or g2[1] != 0 or g2[2] != c["comps"]:
+                why = "after gd_move(a, 1, GD_REN_DATA) and reopening the field reads %s, before it read %s" % (r[9][:140], gdlib.hexs(c["comps"])[:140])
+        if why:
+            spec_bad.setdefault("move/" + c["enc"], []).append((c, c["note"] + ": " + why))
+        else:
+            nontriv.add(("move", c["note"], c["t"], tuple(c["comps"])))
     dd_ = os.path.join(root, "endarg"); os.mkdir(dd_)
     open(os.path.join(dd_, "format"), "w").write("/ENCODING none\na RAW UINT16 1\n")
     rc, out = vlib.sh([exe], inp=("open %s rw\nalter_endianness_raw 0 0 0\nalter_endianness_raw 12 0 0\nalter_endianness_raw 8 0 0\nclose\n" % dd_).encode(), timeout=60)
